@@ -7,6 +7,7 @@ LEVEL = "proof"
 
 def run(r):
     r.require_theorems(1)
+    r.run_witnesses()
     lrcommon.run_lr(r, "C09", also= terminate, never accept silently, blame the right token:())
     r.assumptions += [
         "per generated grammar the theorem quantifies over all token sequences; the space of grammars is sampled by the generator",
